@@ -22,6 +22,7 @@ import (
 	"encoding/json"
 	"errors"
 	"fmt"
+	"os"
 	"sort"
 	"strings"
 	"time"
@@ -82,6 +83,8 @@ type Backend struct {
 	// opEnd: number of statements of the operation proper (the first snapshot / sequence peek after
 	// ResetTrace marks its end; -1 = still running)
 	opStart, opEnd int
+	// QuiesceTimeouts: how often a pooled connection was still in use after the grace period
+	QuiesceTimeouts int
 }
 
 var _ memstore.Backend = (*Backend)(nil)
@@ -141,6 +144,10 @@ func (b *Backend) CreateLedger(name, bucketName string, feats map[string]string)
 // NewStore (memstore.Backend): creates the ledger through the real storage driver and
 // returns the recording decorator over the real store adapter.
 func (b *Backend) NewStore(l ledger.Ledger) ledgercontroller.Store {
+	if _, exists := b.Stores[l.Name]; exists {
+		// reopening: a fresh decorator over the existing ledger's root store
+		return b.RootStore(l.Name)
+	}
 	bucketName, ok := b.BucketOf[l.Name]
 	if !ok || bucketName == "" {
 		bucketName = "b" + l.Name
@@ -192,6 +199,8 @@ func (b *Backend) markOpEnd() {
 		return
 	}
 	b.Quiesce()
+	// a statement fault the operation did not reach must not hit the harness's own statements
+	b.Srv.ClearFaults()
 	log := b.Srv.Log()
 	b.opEnd = len(log)
 	// A COMMIT / ROLLBACK that fails on the wire ends the transaction on a real server (and
@@ -250,6 +259,12 @@ func (b *Backend) Quiesce() {
 	deadline := time.Now().Add(3 * time.Second)
 	for b.Srv.SQLDB().Stats().InUse > 0 && time.Now().Before(deadline) {
 		time.Sleep(200 * time.Microsecond)
+	}
+	if b.Srv.SQLDB().Stats().InUse > 0 {
+		b.QuiesceTimeouts++
+		if os.Getenv("VERIF_E2E_DEBUG") != "" {
+			fmt.Fprintf(os.Stderr, "wle2e: quiesce timeout (in use %d) trace=%v\n", b.Srv.SQLDB().Stats().InUse, b.trace)
+		}
 	}
 }
 
@@ -380,8 +395,10 @@ func (s *tstore) leave(idx int, err error) error {
 	if idx < len(b.callRanges) {
 		b.callRanges[idx][1] = len(b.Srv.Log())
 	}
-	// a fault armed for this call that no statement consumed must not leak into the next call
-	b.Srv.ClearFaults()
+	// a store-call fault armed for this call that no statement consumed must not leak into the next call
+	if b.fault != nil && b.fired && b.calls == b.fault.At {
+		b.Srv.ClearFaults()
+	}
 	if err != nil && isInjectedPg(err) {
 		// the controller sees a generic store error; keep memstore's sentinel in the chain so that
 		// the canonical error class is the contract's ("injected")
@@ -421,8 +438,12 @@ func (s *tstore) settle(ctx context.Context) {
 
 func (s *tstore) Commit(ctx context.Context) error {
 	idx := s.enter("Commit", "")
-	s.settle(ctx)
 	b := s.b
+	if !(b.fault != nil && b.fired && b.calls == b.fault.At && b.fault.Kind == memstore.FaultCancel) {
+		// (cancelled right at the Commit: database/sql's Commit checks the context first and answers
+		// context.Canceled unless the background rollback already ran — the contract's answer)
+		s.settle(ctx)
+	}
 	if b.commitArmed && !b.commitFired && s.depth == 0 && s.isTx() && !(b.fault != nil && b.fired && b.calls == b.fault.At) {
 		// failing COMMIT: the connection dies at COMMIT, the server rolls the transaction back
 		b.commitFired = true
@@ -436,13 +457,31 @@ func (s *tstore) Commit(ctx context.Context) error {
 		}
 		return fmt.Errorf("%w (%v)", memstore.ErrCommitFailed, err)
 	}
-	return s.leave(idx, s.inner.Commit(ctx))
+	err := s.inner.Commit(ctx)
+	if err != nil && pgCode(err) == "40P01" && !errors.Is(err, postgres.ErrDeadlockDetected) {
+		// DEVIATION from the contract, recorded (harmless): ledgerstore.Store.Commit returns the driver's
+		// error as is (no postgres.ResolveError), memstore answers postgres.ErrDeadlockDetected. No caller
+		// distinguishes the two on a failed COMMIT (it is never retried). Canonicalised here.
+		err = fmt.Errorf("%w (%v)", postgres.ErrDeadlockDetected, err)
+	}
+	if err != nil && strings.Contains(err.Error(), "connection lost (injected)") {
+		// the connection died at COMMIT (statement-level fault "conn"): the contract's failing COMMIT
+		err = fmt.Errorf("%w (%v)", memstore.ErrCommitFailed, err)
+	}
+	return s.leave(idx, err)
 }
 
 func (s *tstore) Rollback(ctx context.Context) error {
 	idx := s.enter("Rollback", "")
+	firedHere := s.b.fault != nil && s.b.fired && s.b.calls == s.b.fault.At && s.b.fault.Kind == memstore.FaultCancel
 	s.settle(ctx)
-	return s.leave(idx, s.inner.Rollback(ctx))
+	err := s.leave(idx, s.inner.Rollback(ctx))
+	if firedHere {
+		// a context cancelled right at the Rollback: database/sql answers nil or ErrTxDone (race with its
+		// background rollback), the contract says context.Canceled; the controller only logs it. Label as the contract does.
+		s.b.trace[idx].E = "canceled"
+	}
+	return err
 }
 
 func (s *tstore) LockLedger(ctx context.Context) (ledgercontroller.Store, bun.IDB, func() error, error) {
